@@ -197,7 +197,7 @@ def run(R):
         for bb, payload in err_rets:
             src = 'stash' if term_contains(payload, lambda x: is_call(x, name='take')) else ('encode_item' if term_contains(payload, lambda x: is_call(x, name='encode_item')) else ('source' if term_contains(payload, lambda x: is_call(x, name='poll_next')) else '?'))
             gs = b.edge_guards(bb)
-            empt = any(is_call(strip_refs(tm), name='is_empty') and mentions_local_named(b, tm, 'buf') and (vals == ['else'] or 0 not in vals) for s, vals, tm in gs)
+            empt = any(is_call(strip_refs(tm), name='is_empty') and mentions_local_named(b, tm, encode_buf_field(tonic)) and (vals == ['else'] or 0 not in vals) for s, vals, tm in gs)
             if src == 'stash':
                 # replay of a stashed error happens before anything is polled or encoded
                 sp = b.calls(pat='Stream::poll_next')
@@ -216,7 +216,7 @@ def run(R):
         eb, et = b.call1(name='encode_item')
         # what can follow a failed encode_item (its result known to be Err on the path), without passing a truncate
         dest = et['dest']['l']
-        truncs = [(x, t) for x, t in b.calls(name='truncate') if mentions_local_named(b, b.origin(t['args'][0]), 'buf')]
+        truncs = [(x, t) for x, t in b.calls(name='truncate') if mentions_local_named(b, b.origin(t['args'][0]), encode_buf_field(tonic))]
         after_fail = b.reach_ps(et['t'], know0={dest: ('v', 'Err', None)})
         uncut = b.reach_ps(et['t'], know0={dest: ('v', 'Err', None)}, removed={x for x, _ in truncs})
         exits = [x for x in sorted(uncut) if b.term(x)['k'] == 'ret' or (b.term(x)['k'] == 'call' and b.term(x).get('name') in ('split_to', 'split', 'poll_next', 'encode_item') and x != eb)]
@@ -227,7 +227,7 @@ def run(R):
                 continue
             off = strip_refs(b.origin(tt['args'][1]))
             okt = False
-            if is_call(off, name='len') and mentions_local_named(b, off, 'buf'):
+            if is_call(off, name='len') and mentions_local_named(b, off, encode_buf_field(tonic)):
                 # saved after this iteration's source poll and before encode_item (a value hoisted out of the loop would be
                 # the length before the *first* message of the batch)
                 lb = [bb for bb, lt in b.calls(name='len') if lt is off[4]]
@@ -237,7 +237,7 @@ def run(R):
         # every split_to yields the whole buffer
         for x, t, w_ in whole_buffer_takes(b):
             a = strip_refs(b.origin(t['args'][1])) if len(t['args']) > 1 else ('whole',)
-            R.check(w_ and mentions_local_named(b, b.origin(t['args'][0]), 'buf'), 'C06.R3', 'whole-buffer-yield', site(b, x), 'split_to(%s)' % show(a)[:60])
+            R.check(w_ and mentions_local_named(b, b.origin(t['args'][0]), encode_buf_field(tonic)), 'C06.R3', 'whole-buffer-yield', site(b, x), 'split_to(%s)' % show(a)[:60])
 
     # ---------------------------------------------------------------- R4 plumbing
     R.describe('C06.R4', 'limit plumbing: server/client configuration fields reach Streaming::new_request/new_response (decode) and map_response/EncodeBody (encode); encode and decode limits are not swapped')
